@@ -111,6 +111,7 @@ def run_python(prog, tbl, formula, me):
     """execute on the real code; returns per statement the observations + oracle verdicts"""
     regs = {}
     exp = {}            # id(obj) -> exact expected counts (oracle), by object
+    eid = {}            # register -> identity the statement's semantics gives it (only `r = r2` aliases)
     obs = []
     nreg = 0
     for st in prog:
@@ -167,6 +168,7 @@ def run_python(prog, tbl, formula, me):
             break
         if k != "iadd":
             nreg = st[1] + 1
+            eid[st[1]] = eid[st[2]] if k == "same" else len(eid) + 1000 * len(obs)
         target = regs[st[1]]
         if want is not None:
             exp[id(target)] = want
@@ -199,7 +201,9 @@ def run_python(prog, tbl, formula, me):
             if not close(tot, 1.0, rel=1e-9):
                 bad.append("mass fractions sum to %r" % tot)
             for kk, c in o["massfrac"]:
-                if not close(float(want[kk] * masses[kk] / m), c, rel=1e-9, abs_=1e-12):
+                if kk not in want:
+                    bad.append("mass fraction lists %s, which is not a part of the formula" % (kk,))
+                elif not close(float(want[kk] * masses[kk] / m), c, rel=1e-9, abs_=1e-12):
                     bad.append("mass fraction of %s: expected %r got %r" % (kk, float(want[kk] * masses[kk] / m), c))
         if k != "iadd":
             for r, s in before.items():
@@ -208,8 +212,9 @@ def run_python(prog, tbl, formula, me):
                         bad.append("operand in variable %d changed by %s" % (r, k))
         else:
             for r, s in before.items():
-                if regs[r] is not regs[st[1]] and pyside.struct_keys(regs[r].structure) != s:
-                    bad.append("+= changed a formula other than its target (variable %d)" % r)
+                if eid[r] != eid[st[1]] and pyside.struct_keys(regs[r].structure) != s:
+                    bad.append("+= changed a formula other than its target (variable %d): an earlier "
+                               "operation returned its operand instead of a new formula" % r)
         o["oracle"] = bad
         obs.append(o)
     return obs
